@@ -279,19 +279,22 @@ func checkAndReplaceSequence(state *BuildState, target, dep *BuildTarget, ep, in
 		}
 		return base64.RawURLEncoding.EncodeToString(h)
 	}
+	// Tools aren't copied into the build directory, so are referred to by absolute path.
+	destination := func(out string) string {
+		if tool && !state.WillRunRemotely(target) {
+			abs, err := filepath.Abs(handleDir(dep.OutDir(), out, dir))
+			if err != nil {
+				log.Fatalf("Couldn't calculate relative path: %s", err)
+			}
+			return quote(abs)
+		}
+		return quote(fileDestination(target, dep, out, dir, outPrefix, test))
+	}
 	var outputBuilder strings.Builder
 	if ep == "" {
 		for _, out := range dep.Outputs() {
 			if allOutputs || out == in {
-				if tool && !state.WillRunRemotely(target) {
-					abs, err := filepath.Abs(handleDir(dep.OutDir(), out, dir))
-					if err != nil {
-						log.Fatalf("Couldn't calculate relative path: %s", err)
-					}
-					outputBuilder.WriteString(quote(abs))
-				} else {
-					outputBuilder.WriteString(quote(fileDestination(target, dep, out, dir, outPrefix, test)))
-				}
+				outputBuilder.WriteString(destination(out))
 				outputBuilder.WriteString(" ")
 				if dir {
 					break
@@ -304,7 +307,7 @@ func checkAndReplaceSequence(state *BuildState, target, dep *BuildTarget, ep, in
 	if !ok {
 		log.Fatalf("%v has no entry point %s", dep, ep)
 	}
-	return quote(fileDestination(target, dep, out, dir, outPrefix, test))
+	return destination(out)
 }
 
 func fileDestination(target, dep *BuildTarget, out string, dir, outPrefix, test bool) string {
